@@ -290,6 +290,10 @@ def eval_int(t):
             return a - b * int(a / b)
         if op == "BitAnd":
             return a & b
+        if op == "BitXor":
+            return a ^ b
+        if op == "BitOr":
+            return a | b
         if op in ("Eq", "Ne", "Lt", "Le", "Gt", "Ge"):
             return int({"Eq": a == b, "Ne": a != b, "Lt": a < b, "Le": a <= b, "Gt": a > b, "Ge": a >= b}[op])
     return None
